@@ -330,7 +330,7 @@ RULE = (
 
 def build(tier):
     return CheckSpec(
-        [Sub("scenarios", run_case, strategy=_case, budget={"quick": 2500, "thorough": 50000}, max_wall={"quick": 55, "thorough": 2400})],
+        [Sub("scenarios", run_case, strategy=_case, budget={"quick": 2500, "thorough": 250000}, max_wall={"quick": 55, "thorough": 3600})],
         RULE,
         assumptions=["OS boundary replaced by vlib.simnet", "give-up instants are computed from the tuning (ACK_RANDOM_FACTOR = 1 makes them exact)"],
         selftest=selftest,
